@@ -150,7 +150,7 @@ CHECKS['C17'] = {
 CHECKS['C09'] = {
     'level': 'other',
     'technique': 'hybrid: deductive proof (heap model, slice mode) of the restore loop of load_logits and of get_dense_logits + bounded round trips with real pickle/scipy',
-    'text': ('PROVED for all layouts/files: the restore loop of load_logits sets logits/characters/logit_coords of exactly the lines whose id is in the file to the '
+    'text': ('PROVED: _gen_logits raises iff missing components are not allowed and some line lacks logits / characters / frame window (a missing component is reported, never saved silently).  PROVED for all layouts/files: the restore loop of load_logits sets logits/characters/logit_coords of exactly the lines whose id is in the file to the '
              'file entries and leaves every other line untouched (nested-loop invariants + frame); get_dense_logits returns stored entries unchanged and the floor '
              'for pruned ones. BOUNDED: save/load via path and bytes for 0..3 lines x 5 sparse matrices x charsets x coords, subset/superset/reordered targets, '
              'missing components reported and nothing written, legacy files, row-normalised log-probabilities, PAGE XML + logits rebuild gives the same greedy '
